@@ -34,6 +34,8 @@ enum Op {
     /// raw element swap ("Swaps vector elements": indices count from the bottom); only applied in range,
     /// the property's "never fail" clause is about positions of the documented top-based operations
     Swap(usize, usize),
+    /// `a.clone_from(&b)` with a `b` of n fresh elements (shorter, equal or longer than a), and `clone()`
+    CloneFrom(usize),
 }
 
 fn all_ops(maxpos: usize) -> Vec<Op> {
@@ -57,6 +59,9 @@ fn all_ops(maxpos: usize) -> Vec<Op> {
     v.push(Op::PushVec(2));
     v.push(Op::FromVec(0));
     v.push(Op::FromVec(2));
+    v.push(Op::CloneFrom(0));
+    v.push(Op::CloneFrom(1));
+    v.push(Op::CloneFrom(4));
     v
 }
 
@@ -314,6 +319,19 @@ impl<T: Elem> Hist<T> {
                 if *i < len && *j < len {
                     self.real.swap(*i, *j);
                     self.model.swap(*i, *j);
+                }
+            }
+            Op::CloneFrom(n) => {
+                let v: Vec<T> = (0..*n).map(|_| self.fresh()).collect();
+                let other = PushStack::from_vec(v.clone());
+                self.real.clone_from(&other);
+                self.model = v;
+                // and a clone is an independent equal copy
+                let mut c = self.real.clone();
+                let e = self.fresh();
+                c.push(e);
+                if c.size() != self.model.len() + 1 || self.real.size() != self.model.len() {
+                    return Err(format!("clone() is not an independent copy: clone has {} items, original {}, model {}", c.size(), self.real.size(), self.model.len()));
                 }
             }
             Op::FromVec(n) => {
